@@ -4,7 +4,7 @@ history of safe operations — under ANY user equality, with ANY injected panic,
 This is the common core of C02 (no `ub`: no dead slot is ever read, compared, returned or
 dropped), C04 (exception safety), C05 (well-formedness) and C17 (lying `Eq`).
 -/
-import Micromap.Proofs.StepInv
+import Micromap.Proofs.StepInvEntry
 
 namespace Micromap
 open SetAlg Dict
@@ -167,10 +167,22 @@ theorem assignSet_inv {sys : Sys K V Q} (hs : SysInv E sys) (dst cap : Nat) {bui
 
 variable (R : Render K V)
 
-/-- the operations the system-level theorem covers: every safe operation of the language except
-    those listed in `MapOp.basic` as handled separately. -/
-def Op.basic : Op K V Q → Bool
-  | .map _ op => op.basic
+/-- every operation of a map register that goes through the safe API. -/
+theorem stepMapOp_inv (other : Nat → Raw K V) (hother : ∀ o, Inv E (other o))
+    (op : MapOp K V Q) (hop : op.safeApi = true) : OpInv E (stepMapOp E R other op) := by
+  cases op with
+  | entry k mods fin => exact opInv_entryOp E k mods fin
+  | get_disjoint_mut u g ks =>
+    cases u with
+    | true => cases hop
+    | false => exact opInv_gdm E g ks
+  | insert_unchecked k v => cases hop
+  | _ => exact stepMapOp_inv_basic E R other hother _ rfl
+
+/-- the operations the system-level theorems cover: the whole operation language except the
+    two `unsafe fn`s (`insert_unchecked`, `get_disjoint_unchecked_mut`). -/
+def Op.safeApi : Op K V Q → Bool
+  | .map _ op => op.safeApi
   | _ => true
 
 theorem resInv_rewrap {α : Type} {r : Res (Sys K V Q) α} (h : ResInv E r) :
@@ -180,11 +192,11 @@ theorem resInv_rewrap {α : Type} {r : Res (Sys K V Q) α} (h : ResInv E r) :
   | panic c s => exact h
   | ub => exact h
 
-theorem stepCore_inv {sys : Sys K V Q} (hs : SysInv E sys) (op : Op K V Q) (hop : op.basic = true) :
+theorem stepCore_inv {sys : Sys K V Q} (hs : SysInv E sys) (op : Op K V Q) (hop : op.safeApi = true) :
     ResInv E (stepCore E R sys op) := by
   cases op with
   | map reg mop =>
-    have hmop : mop.basic = true := hop
+    have hmop : mop.safeApi = true := hop
     cases mop with
     | clone_to dst =>
       have h := assignMap_inv E hs dst (sys.maps reg).cap (build := cloneInto E (sys.maps reg)) (fun w =>
@@ -200,10 +212,7 @@ theorem stepCore_inv {sys : Sys K V Q} (hs : SysInv E sys) (op : Op K V Q) (hop 
       simp only [stepCore]
       revert h; generalize assignMap E sys reg _ _ = r; intro h
       cases r <;> exact h
-    | insert_unchecked k v => cases hmop
-    | entry k mods fin => cases hmop
-    | get_disjoint_mut u g ks => cases hmop
-    | _ => exact runOnMap_inv E (stepMapOp_inv_basic E R sys.maps hs.1 _ hmop) hs reg
+    | _ => exact runOnMap_inv E (stepMapOp_inv E R sys.maps hs.1 _ hmop) hs reg
   | set reg sop =>
     cases sop with
     | clone_to dst =>
@@ -274,7 +283,7 @@ theorem sysInv_world {sys : Sys K V Q} (hs : SysInv E sys) (w : World K V Q) : S
     `ub` and all registers satisfy the invariant afterwards — whether the operation returned,
     panicked by itself (overflow, missing index, overlap) or unwound from an injected panic in
     user code. -/
-theorem step_inv {sys : Sys K V Q} (hs : SysInv E sys) (op : Op K V Q) (hop : op.basic = true) :
+theorem step_inv {sys : Sys K V Q} (hs : SysInv E sys) (op : Op K V Q) (hop : op.safeApi = true) :
     (step E R sys op).2.outcome ≠ .ub ∧ SysInv E (step E R sys op).1 := by
   unfold step
   cases op with
@@ -308,7 +317,7 @@ theorem step_inv {sys : Sys K V Q} (hs : SysInv E sys) (op : Op K V Q) (hop : op
     any armed injections, any profile: no step reaches `ub` and the invariant holds at the end
     (hence, by the same theorem applied to prefixes, after every step). -/
 theorem run_inv : ∀ (ops : List (Op K V Q)) (sys : Sys K V Q), SysInv E sys →
-    (∀ op, op ∈ ops → op.basic = true) →
+    (∀ op, op ∈ ops → op.safeApi = true) →
     (∀ o, o ∈ (run E R sys ops).2 → o.outcome ≠ .ub) ∧ SysInv E (run E R sys ops).1
   | [], sys, hs, _ => ⟨fun _ h => by simp [run] at h, hs⟩
   | op :: ops, sys, hs, hops => by
